@@ -224,10 +224,11 @@ PROPS = {
             ("<AtRuleDest as Drop>::drop", "output/cssdest.rs", r"impl Drop for AtRuleDest"),
             ("<AtMediaDest as Drop>::drop", "output/cssdest.rs", r"impl Drop for AtMediaDest"),
             ("RuleDest / AtRuleDest / AtMediaDest :: start_atmedia, start_atrule", "output/cssdest.rs", r"fn start_atmedia\(&mut self, args: MediaArgs\) -> AtMediaDest<'_> \{"),
+            ("rsass::output::transform::handle_item (Property / CustomProperty / NamespaceRule arms)", "output/transform.rs", r"Item::Property\(name, value, pos\) =>"),
         ],
-        "bounds": {"quick": "the @error arm of handle_item for any message/position; each of the three destination Drop impls from an arbitrary destination state, the parent's answer (Ok/Err) symbolic; "
+        "bounds": {"quick": "the declaration arms of handle_item with every outcome of evaluation, CSS validation and the destination's answer; the @error arm of handle_item for any message/position; each of the three destination Drop impls from an arbitrary destination state, the parent's answer (Ok/Err) symbolic; "
                             "the six start_atmedia / start_atrule methods from an arbitrary destination state"},
-        "outside": "@error inside functions (eval_body) is checked only by native probes; which statements are accepted in which container (check_body); everything the parser decides; that every reached declaration is pushed at all (push_property call sites)",
+        "outside": "@error inside functions (eval_body) is checked only by native probes; which statements are accepted in which container (check_body); everything the parser decides; declarations pushed by other paths than the three declaration arms (e.g. plain CSS input)",
         "stubs": ["parent.push_item / commit_rule return Ok or Err (symbolic)", "eprintln! is an event"],
         "assumptions": ["rustc nightly MIR text = the code that is compiled", "mirsym's MIR subset semantics (/verif/mirsym/sym.py)"],
     },
